@@ -317,6 +317,8 @@ def classify(v):
             return "redundantCondition-strict-nonstrict-pair-names-wrong-operand"
     if v["id"] == "compareValueOutOfTypeRangeError" and re.search(r"type 'unsigned (int|long|long long)' against value -\d+", v["msg"]):
         return "compareValueOutOfTypeRange-unsigned-vs-negative-constant"
+    if v["id"] == "comparisonError" and re.match(r"^\(?-?\d+\)? (<|<=|>|>=) ", v["expr"]):
+        return "comparisonError-constant-on-left-operator-not-mirrored"
     return "unclassified:%s:%s:%s" % (v["id"], v["shape"], v["expected"][1])
 
 
